@@ -229,4 +229,28 @@ for _pid, _what in FX.items():
     _P["level_note"] = _P["level_note"].replace("exact arithmetic (float rounding not modelled)", "exact arithmetic for the theorems").replace("(floats and i64 overflow not modelled)", "for the theorems") \
         + " The theorems are about exact arithmetic; float rounding, non-finite values and truncating integer division are covered by the bit-exact correspondence stream only (a disagreement there is reported as a correspondence break)."
 
+# ---- method bodies re-translated from the Rust source on every run (translator/rs2coq.py, translator/bodies.py) -------
+BODIES = {
+    "C03": "mean::mean::Mean::filter (4 state shapes: running sum None/Some x push_back evicts None/Some)",
+    "C05": "Convolve::filter (push-until-evict loop + zip/rev/fold), Convolve::normalized (sum loop, is_zero test, in-place division), Delay::filter",
+    "C06": "Kalman::process (both state shapes; every division is a proof case: non-zero divisors give the translated term, the first zero divisor gives a panic)",
+    "C07": "Analyze::filter and Synthesize::filter (the two inner Convolve::filter bodies are executed from their own translated source)",
+    "C08": "Threshold::filter, Schmitt::filter (on / off), Debounce::filter",
+    "C09": "Slopes::filter (four-way split on partial_cmp)",
+    "C11": "sinks: Integrate/Min/Max/Mean/MeanVariance::filter and MeanVariance::finalize",
+    "C13": "mean::exp::Mean::filter and median::exp::Median::filter (8 state shapes; inner mean filters executed from their translated source)",
+    "C14": "AlphaBeta::filter (both state shapes, with the in-arm reassignments)",
+    "C15": "Differentiate::filter, Integrate::filter",
+    "C16": "mean::exp::MeanVariance::filter (4 shapes) and mean::MeanVariance::filter (16 shapes; state_mut().mean read as it is)",
+    "C18": "Hampel::filter_internal (8 accessor shapes; the median window is an abstract state with its four operations as hypotheses) and the factor literal of both impl_hampel_filter! invocations",
+}
+_B_TRUST = ("translator/rs2coq.py + translator/bodies.py: a parser for a subset of Rust expressions/statements and a symbolic executor (references, clone and iter are transparent; "
+            "Option-valued state fields are case-split into None/Some; `a > b` is printed as altb b a, `a >= b` as aleb b a; a symbolic `if !c` is printed with swapped branches; "
+            "circular_buffer push_back / the push-until-evict loop / the median window's accessors enter as hypotheses of the generated lemma); the lemmas themselves are checked by the Coq kernel")
+for _pid, _what in BODIES.items():
+    _P = PROPS[_pid]
+    _P["corr"] += "; source-to-model translation (all inputs): " + _what
+    _P["trusted"] = _P["trusted"] + [_B_TRUST]
+    _P["level_note"] += " The modelled method bodies are re-translated from the Rust source text on every run and proved equal (by computation) to the generic model that the rational model is an instance of; the differential runs cross-check that translator."
+
 NOT_YET = {}
